@@ -6,6 +6,7 @@ import toygen
 import impl as implmod
 
 PROP = "C16"
+TRACK_GLOBALS = True       # run.py records which case changed a module/class-level table
 CONSTS = ['mem']          # constant tables of the models this property depends on
 RULE = ("programs (RISC-V both modes with random data/instruction cache configurations, TOY images) stepped with random subsets "
         "and repetitions of ALL read-only inspection functions (register/memory/instruction/cache tables, cache statistics, SVG "
@@ -66,7 +67,7 @@ def oracle(c):
             return fails
         if oa.startswith("F") or oa.startswith("X"):
             break
-    if implmod.global_fingerprint() != g0:
+    if c.meta.get("global_changed"):
         return [Failure("oracle", PROP, "an inspection call changed a module/class-level table of the simulator (shared by every simulation in the process)", "insp:mutates-global-table")]
     da = implmod.deep_state(a.toy if toy else a.sim)
     db = implmod.deep_state(b.toy if toy else b.sim)
